@@ -30,11 +30,13 @@ try:
         rc, o = sh("cargo test --workspace --no-fail-fast --offline 2>&1 | grep -E '^test result|FAILED|error' ")
         res["suite_passes_with_change"] = ("FAILED" not in o and "error" not in o and "test result: ok" in o)
         res["suite_summary"] = sorted(set(o.strip().splitlines()))[:6]
+        os.makedirs(os.path.dirname(os.path.join(wt, dest)), exist_ok=True)
         shutil.copy(os.path.join(d, "demo.rs"), os.path.join(wt, dest))
         rc, o = sh(cmd)
         res["demo_fails_with_change"] = rc != 0
         res["demo_with_change_tail"] = o.strip().splitlines()[-3:]
         sh("git checkout -- source")
+        os.makedirs(os.path.dirname(os.path.join(wt, dest)), exist_ok=True)
         rc, o = sh(cmd)
         res["demo_passes_without_change"] = rc == 0
         res["demo_without_change_tail"] = o.strip().splitlines()[-3:]
